@@ -108,4 +108,4 @@ for _m in ("claims_vec", "claims_str", "claims_box", "claims_borrow", "claims_th
         pass
 
 # properties whose check is complete enough to be claimed in MANIFEST.json (the lead flips these on)
-READY = {"C14", "C20", "C05", "C01", "C02", "C11", "C12", "C03", "C04", "C06", "C07", "C08", "C09", "C10", "C18", "C19"}
+READY = {"C17", "C14", "C20", "C05", "C01", "C02", "C11", "C12", "C03", "C04", "C06", "C07", "C08", "C09", "C10", "C18", "C19"}
